@@ -460,8 +460,29 @@ def run_real(case):
                         setattr(tgt, st['key'], v)
                 elif op == 'del':
                     del tgt[st['key']]
-                elif op == 'update':
-                    tgt.update({k: build(v, world) for k, v in st['items']})
+                elif op in ('update', 'ior'):
+                    kw = {k: build(v, world) for k, v in st.get('items', [])}
+                    if 'src' in st:
+                        arg = resolve_real(world, st['src'])        # the other side's meta / visual OBJECT
+                    elif 'plain' in st:
+                        arg = {k: build(v, world) for k, v in st['plain']}
+                    else:
+                        arg = None
+                    arg_before = None if arg is None else (list(arg.keys()), [id(v) for v in arg.values()])
+                    try:
+                        if op == 'ior':
+                            tgt |= arg
+                        elif arg is None:
+                            tgt.update(**kw)
+                        else:
+                            tgt.update(arg, **kw)
+                    finally:
+                        if arg is not None and tgt is not arg and \
+                                arg_before != (list(arg.keys()), [id(v) for v in arg.values()]):
+                            extra.setdefault('arg_changed', []).append(
+                                f'step {si}: {op} changed its ARGUMENT {st.get("src") or "plain dict"}')
+                elif op == 'setdefault':
+                    tgt.setdefault(st['key'], build(st['val'], world))
                 elif op == 'clear':
                     tgt.clear()
                 elif op == 'setidx':
@@ -611,9 +632,12 @@ def to_model_steps(st, real_out):
         if op == 'setslice':
             return [{'do': 'mut', 'at': at, 'op': 'setidx', 'idx': st['start'] + k, 'val': model_val(v)}
                     for k, v in enumerate(st['vals'])]
-        if op == 'update':
-            # Meta.update: one __setitem__ per key, in order (it stops at the first invalid key)
-            return [{'do': 'mut', 'at': at, 'op': 'set', 'key': k, 'val': model_val(v)} for k, v in st['items']]
+        if op in ('update', 'ior'):
+            m = {'do': 'mut', 'at': at, 'op': 'update',
+                 'items': [[k, model_val(v)] for k, v in list(st.get('plain', [])) + list(st.get('items', []))]}
+            if 'src' in st:
+                m['src'] = st['src']
+            return [m]
         if op in ('iadd', 'setitem', 'delitem'):
             # list-protocol operations on the Regions OBJECT itself (not on its list)
             tgt = st['at']
@@ -1054,7 +1078,7 @@ class Check(PropertyCheck):
         return cases
 
     # -- copy + mutation programs
-    def gen_mut(self, g, root, spec, changed=(), dead=()):
+    def gen_mut(self, g, root, spec, changed=(), dead=(), other=None):
         r = g.rng
         # `dead`: operand attributes that an earlier step replaced by another region (whose shape the
         # spec no longer describes): nothing below them is targeted any more
@@ -1104,7 +1128,25 @@ class Check(PropertyCheck):
             keys = META_KEYS if path[-1] == 'meta' else VIS_KEYS
             have = [k for k, _ in info['v']]
             c = r.random()
-            if c < 0.5:
+            if c < 0.35:
+                # update / |= / setdefault, also with the OTHER side's meta / visual object as argument
+                kw = [[k, g.metaval(k)] for k in r.sample(keys, r.randint(0, 2))]
+                if r.random() < 0.06:
+                    kw.append(['bogus', {'t': 'str', 'v': 'x'}])          # rejected as a whole: KeyError
+                c2 = r.random()
+                if other is not None and c2 < 0.4:
+                    return {'do': 'mut', 'at': at, 'op': 'update', 'src': {'root': other, 'path': path}, 'items': kw}
+                if other is not None and c2 < 0.55:
+                    return {'do': 'mut', 'at': at, 'op': 'ior', 'src': {'root': other, 'path': path}}
+                if c2 < 0.7:
+                    return {'do': 'mut', 'at': at, 'op': 'update', 'items': kw,
+                            'plain': [[k, g.metaval(k)] for k in r.sample(keys, r.randint(0, 2))]}
+                if c2 < 0.82:
+                    return {'do': 'mut', 'at': at, 'op': 'update', 'items': kw}
+                k = r.choice((have or keys) + keys + (['width', 'point'] if path[-1] == 'visual' else []) + ['bogus'])
+                kk = {'point': 'symbol', 'width': 'linewidth', 'bogus': 'label'}.get(k, k)
+                return {'do': 'mut', 'at': at, 'op': 'setdefault', 'key': k, 'val': g.metaval(kk)}
+            if c < 0.6:
                 k = r.choice(keys + (['point', 'width'] if kind == 'rvisual' else []))
                 kk = {'point': 'symbol', 'width': 'linewidth'}.get(k, k)
                 return {'do': 'mut', 'at': at, 'op': 'set', 'key': k, 'val': g.metaval(kk)}
@@ -1190,9 +1232,13 @@ class Check(PropertyCheck):
                                  'idx': 1, 'val': {'t': 'int', 'v': 77}})
             dead = []
             for _ in range(r.randint(1, 8)):
-                m = self.gen_mut(g, side, sb, changed=changed if side == 'b' else (), dead=dead)
+                m = self.gen_mut(g, side, sb, changed=changed if side == 'b' else (), dead=dead,
+                                 other=None if how == 'changes' else ('a' if side == 'b' else 'b'))
                 if m.get('op') == 'set' and isinstance(m.get('val'), dict) and m['val'].get('t') == 'region':
                     dead.append(m['at']['path'] + [m['key']])
+                if 'src' in m:
+                    # the values of the other side's dict are now shared ON PURPOSE: no nested edits below
+                    dead.append(m['at']['path'])
                 prog.append(m)
             prog.append({'do': 'snap', 'tag': 'after_mut'})
             prog.append({'do': 'eq', 'a': {'root': 'a', 'path': []}, 'b': {'root': 'b', 'path': []}})
@@ -1894,6 +1940,7 @@ class Check(PropertyCheck):
             if ra is not None and rb is not None:
                 obs['shared_after_copy'] = len(set(ra) & set(rb))
                 obs['n_reach'] = [len(ra), len(rb)]
+            obs['arg_changed'] = extra.get('arg_changed', [])[:5]
             if len(snaps) >= 2:
                 s0 = dict(snaps[0])
                 s1 = dict(snaps[1])
@@ -2035,6 +2082,8 @@ class Check(PropertyCheck):
                 elif not same:
                     bad('copy_field_mismatch', f'field {k} of the copy differs from the original', field=k,
                         nonempty_meta=self._compound_has_meta(out, prog))
+            for msg in obs.get('arg_changed', []):
+                bad('update_changed_argument', msg)
             if obs.get('rp_vertices_ok') is False:
                 bad('regular_polygon_vertices', 'copy.vertices differ from a fresh construction')
         elif case['kind'] == 'eq':
